@@ -515,6 +515,41 @@ func (c *KindCase) Exec(t *eng.T) {
 		if op := px.Render(nil, "{{ v|"+f+" }}", pongo2.Context{"v": v}); op.Failed() || strings.ContainsAny(op.S, "<>\"'") || html.UnescapeString(op.S) != in {
 			t.Fail(f+":template-autoescape-on:"+c.Kind, "{{ v|%s }} under autoescape on with the %s %q renders %s, which does not unescape to the text", f, c.Kind, in, op)
 		}
+		// the escaped text is markup wherever it travels before it is printed: as an item of a list written in the
+		// template, as an element of a []any handed over by the application
+		if ev, eerr := pongo2.ApplyFilter(f, pongo2.AsValue(v), nil); eerr == nil && c.Kind != "safevalue" {
+			for _, pr := range []struct {
+				src string
+				cx  pongo2.Context
+			}{
+				{"{% for x in [v|" + f + "] %}{{ x }}{% endfor %}", pongo2.Context{"v": v}},
+				{"{{ items.0 }}{% for x in items %}|{{ x }}{% endfor %}", pongo2.Context{"items": []any{ev}}},
+				{"{% with w=v|" + f + " %}{{ w }}{% endwith %}{% set q = v|" + f + " %}|{{ q }}", pongo2.Context{"v": v}},
+				{"{{ [v|" + f + "]|first }}|{{ [1, v|" + f + "]|last }}|{{ items|first }}", pongo2.Context{"v": v, "items": []any{ev}}},
+				{"{{ g(v) }}|{{ gv(v) }}", pongo2.Context{"v": v, "g": func(x *pongo2.Value) any { r, _ := pongo2.ApplyFilter(f, x, nil); return r },
+					"gv": func(x *pongo2.Value) *pongo2.Value { r, _ := pongo2.ApplyFilter(f, x, nil); return r }}},
+			} {
+				op := px.Render(nil, pr.src, pr.cx)
+				parts := strings.Split(op.S, "|")
+				for _, part := range parts {
+					if op.Failed() || strings.ContainsAny(part, "<>\"'") || html.UnescapeString(part) != in {
+						t.Fail(f+":travels:"+c.Kind, "%s under autoescape on with the %s %q renders %s, which does not unescape to the text", pr.src, c.Kind, in, op)
+						break
+					}
+				}
+			}
+		}
+		// one Value that wraps a pointer follows what the pointer points to
+		if c.Kind == "strptr" {
+			s2 := in
+			pv := pongo2.AsValue(&s2)
+			first, _ := pongo2.ApplyFilter(f, pv, nil)
+			s2 = in + "<'&"
+			second, err2 := pongo2.ApplyFilter(f, pv, nil)
+			if err2 != nil || first == nil || html.UnescapeString(second.String()) != s2 {
+				t.Fail(f+":pointer-reread", "%s applied twice to ONE Value wrapping a *string whose text changed from %q to %q gives %q the second time", f, in, s2, second)
+			}
+		}
 		// ... nor by the tags that print their arguments themselves
 		if op := px.Render(nil, "{% firstof v|"+f+" %}", pongo2.Context{"v": v}); in != "" && (op.Failed() || strings.ContainsAny(op.S, "<>\"'") || html.UnescapeString(op.S) != in) {
 			t.Fail(f+":firstof-autoescape-on:"+c.Kind, "{%% firstof v|%s %%} under autoescape on with the %s %q renders %s, which does not unescape to the text", f, c.Kind, in, op)
